@@ -183,7 +183,7 @@ def ScanFacts (l : Lexer) (r : Int) (l' : Lexer) : Prop :=
   ((r = -1 ∧ l'.width = 0 ∧ l'.pos = l.len) ∨
    (0 ≤ r ∧ 1 ≤ l'.width ∧ (128 ≤ r ∨ l'.width = 1) ∧ l'.pos ≤ l.len))
 
-theorem scanWhile_sat (p : Rune → Bool) (hp : p eof = false) (l : Lexer) {Q : Int × Lexer → Prop}
+theorem scanWhile_sat (p : Int → Bool) (hp : p eof = false) (l : Lexer) {Q : Int × Lexer → Prop}
     (h0 : 0 ≤ l.pos) (h1 : l.pos ≤ l.len)
     (hq : ∀ r l', l'.len = l.len → l'.start = l.start → p r = false → ScanFacts l r l' → Q (r, l')) :
     Sat (scanWhile p hp l) Q := by
@@ -236,7 +236,7 @@ theorem scanWhile_sat (p : Rune → Bool) (hp : p eof = false) (l : Lexer) {Q : 
       omega
 
 
-theorem accept_sat {l : Lexer} {valid : List Rune} {Q : Bool × Lexer → Prop} (h0 : 0 ≤ l.pos) (h1 : l.pos ≤ l.len)
+theorem accept_sat {l : Lexer} {valid : List Int} {Q : Bool × Lexer → Prop} (h0 : 0 ≤ l.pos) (h1 : l.pos ≤ l.len)
     (hq : ∀ b l', l'.len = l.len → l'.start = l.start → l.pos ≤ l'.pos →
       l'.pos ≤ l.len → (b = true → l.pos < l'.pos) → Q (b, l')) :
     Sat (accept l valid) Q := by
@@ -256,7 +256,7 @@ theorem accept_sat {l : Lexer} {valid : List Rune} {Q : Bool × Lexer → Prop} 
     apply hq false l'.backup (by simp [hl]) (by simp [hs]) <;> simp only [backup_pos] <;>
       first | omega | (intro h; cases h)
 
-theorem acceptRun_sat {l : Lexer} {valid : List Rune} {Q : Bool × Lexer → Prop} (h0 : 0 ≤ l.pos) (h1 : l.pos ≤ l.len)
+theorem acceptRun_sat {l : Lexer} {valid : List Int} {Q : Bool × Lexer → Prop} (h0 : 0 ≤ l.pos) (h1 : l.pos ≤ l.len)
     (hq : ∀ b l', l'.len = l.len → l'.start = l.start → l.pos ≤ l'.pos →
       l'.pos ≤ l.len → (b = true → l.pos < l'.pos) → Q (b, l')) :
     Sat (acceptRun l valid) Q := by
@@ -381,5 +381,161 @@ def Post (n : Int) (s : St) (l : Lexer) (res : Option St × Lexer) : Prop :=
 
 theorem errorf_sat {n : Int} {s : St} {l0 l : Lexer} : Sat (errorf l) (Post n s l0) :=
   ⟨_, rfl, fun _ h => absurd h (by simp)⟩
+
+
+@[simp] theorem backup_input (l : Lexer) : l.backup.input = l.input := rfl
+@[simp] theorem ignore_input (l : Lexer) : l.ignore.input = l.input := rfl
+@[simp] theorem addPos_input (l : Lexer) (d : Int) : (l.addPos d).input = l.input := rfl
+
+/-- linear arithmetic over lexer positions, after normalising the record projections -/
+macro "lx" : tactic => `(tactic|
+  first
+  | omega
+  | ((try simp only [backup_pos, backup_start, backup_width, backup_input, ignore_pos, ignore_start,
+      ignore_width, ignore_input, addPos_pos, addPos_start, addPos_width, addPos_input, Lexer.len, eof] at *) <;>
+    omega))
+
+theorem Post.of {n : Int} {s s' : St} {l l' : Lexer} (hn : l'.len = n) (h0 : 0 ≤ l'.start)
+    (h1 : l'.start ≤ l'.pos) (h2 : l'.pos ≤ n) (hle : l.pos ≤ l'.pos)
+    (ha : l'.pos = l.pos → l.pos < n → rankA s' < rankA s)
+    (hb : l'.pos = l.pos → ¬ l.pos < n → rankB s' < rankB s) :
+    Post n s l (some s', l') := by
+  intro s'' hs
+  simp only [Option.some.injEq] at hs
+  subst hs
+  refine ⟨⟨hn, h0, h1, h2⟩, ?_⟩
+  by_cases h : l'.pos = l.pos
+  · exact phi_lt_of_same h (ha h) (hb h)
+  · exact phi_lt_of_adv (by simp only at h ⊢; omega) h2
+
+theorem Post.nil {n : Int} {s : St} {l l' : Lexer} : Post n s l (none, l') :=
+  fun _ h => absurd h (by simp)
+
+/-- `let (r, l) ← l.next` -/
+macro "nx" r:ident l:ident hl:ident hs:ident hf:ident : tactic => `(tactic|
+  (apply Sat.bind; apply next_sat (by lx); intro $r $l $hl $hs $hf; unfold NextFacts at $hf:ident; dsimp only))
+
+/-- `let l ← l.emit t` -/
+macro "em" l:ident hl:ident hp:ident hs:ident hw:ident : tactic => `(tactic|
+  (apply emit_sat (by lx) (by lx) (by lx); intro $l $hl $hp $hs $hw))
+
+/-- `pure (some s', l')` at the end of a state function -/
+macro "fin" : tactic => `(tactic|
+  (apply Sat.ret; apply Post.of (by lx) (by lx) (by lx) (by lx) (by lx)
+    (by first | (intro _ _; decide) | (intro _ _; lx))
+    (by first | (intro _ _; decide) | (intro _ _; lx))))
+
+theorem sliceOf_sat {s : Array UInt8} {a b : Int} {Q : Bytes → Prop}
+    (h0 : 0 ≤ a) (h1 : a ≤ b) (h2 : b ≤ s.size)
+    (hq : ∀ v : Bytes, (v.length : Int) = b - a → Q v) : Sat (sliceOf s a b) Q := by
+  unfold sliceOf
+  rw [if_pos ⟨h0, h1, h2⟩]
+  refine ⟨_, rfl, hq _ ?_⟩
+  simp only [Array.length_toList, Array.size_extract]
+  omega
+
+theorem indexOf_sat {s : Array UInt8} {i : Int} {Q : UInt8 → Prop}
+    (h0 : 0 ≤ i) (h1 : i < s.size) (hq : ∀ b, Q b) : Sat (indexOf s i) Q := by
+  unfold indexOf
+  rw [if_pos ⟨h0, h1⟩]
+  exact ⟨_, rfl, hq _⟩
+
+theorem hasPrefixAt_sat {s : Array UInt8} {pos : Int} {pre : Bytes} {Q : Bool → Prop}
+    (h0 : 0 ≤ pos) (h1 : pos ≤ s.size)
+    (hq : ∀ b : Bool, (b = true → pos + pre.length ≤ s.size) → Q b) : Sat (hasPrefixAt s pos pre) Q := by
+  cases h : hasPrefixAt s pos pre with
+  | none =>
+    unfold hasPrefixAt at h
+    rw [if_pos ⟨h0, h1⟩] at h
+    exact absurd h (by simp)
+  | some b =>
+    refine ⟨b, rfl, hq b ?_⟩
+    intro hb
+    subst hb
+    exact (hasPrefixAt_true h).2
+
+theorem stringsIndex_le (needle : Bytes) : ∀ (hay : Bytes) (i : Nat),
+    stringsIndex needle hay = some i → i + needle.length ≤ hay.length := by
+  intro hay
+  induction hay with
+  | nil => intro i h; simp [stringsIndex] at h
+  | cons b t ih =>
+    intro i h
+    unfold stringsIndex at h
+    split at h
+    · rename_i hp
+      simp only [Option.some.injEq] at h
+      subst h
+      have := List.IsPrefix.length_le (List.isPrefixOf_iff_prefix.mp hp)
+      omega
+    · simp only [Option.map_eq_some_iff] at h
+      obtain ⟨j, hj, rfl⟩ := h
+      have := ih j hj
+      simp only [List.length_cons]
+      omega
+
+theorem emitInside_sat {n : Int} {s : St} {l0 l : Lexer} {t : ItemType}
+    (hn : l.len = n) (h0 : 0 ≤ l.start) (h1 : l.start ≤ l.pos) (h2 : l.pos ≤ n) (hadv : l0.pos < l.pos) :
+    Sat (emitInside l t) (Post n s l0) := by
+  unfold emitInside
+  apply Sat.bind
+  em l1 hl1 hp1 hs1 hw1
+  fin
+
+/-! ## State functions -/
+
+theorem lexLeftDelim_ok {n : Int} {l : Lexer} (hg : Good n l) :
+    Sat (lexLeftDelim l) (Post n .leftDelim l) := by
+  obtain ⟨hn, hs0, hsp, hpn⟩ := hg
+  unfold lexLeftDelim
+  nx r1 l1 hl1 hs1 hf1
+  nx r2 l2 hl2 hs2 hf2
+  apply Sat.bind
+  split
+  · em l3 hl3 hp3 hs3 hw3
+    fin
+  · em l3 hl3 hp3 hs3 hw3
+    fin
+
+theorem lexRightDelim_ok {n : Int} {l : Lexer} (hg : Good n l) :
+    Sat (lexRightDelim l) (Post n .rightDelim l) := by
+  obtain ⟨hn, hs0, hsp, hpn⟩ := hg
+  unfold lexRightDelim
+  apply Sat.bind
+  apply badDoubleClose_sat (by lx) (by lx)
+  intro b l1 hl1 hs1 hp1 hle1
+  dsimp only
+  split
+  · exact errorf_sat
+  · apply Sat.bind
+    em l2 hl2 hp2 hs2 hw2
+    fin
+
+theorem lexRightDelimEnd_ok {n : Int} {l : Lexer} (hg : Good n l) :
+    Sat (lexRightDelimEnd l) (Post n .rightDelimEnd l) := by
+  obtain ⟨hn, hs0, hsp, hpn⟩ := hg
+  unfold lexRightDelimEnd
+  nx r1 l1 hl1 hs1 hf1
+  apply Sat.bind
+  apply badDoubleClose_sat (by lx) (by lx)
+  intro b l2 hl2 hs2 hp2 hle2
+  dsimp only
+  split
+  · exact errorf_sat
+  · apply Sat.bind
+    em l3 hl3 hp3 hs3 hw3
+    fin
+
+theorem lexBeginTag_ok {n : Int} {l : Lexer} (hg : Good n l) :
+    Sat (lexBeginTag l) (Post n .beginTag l) := by
+  obtain ⟨hn, hs0, hsp, hpn⟩ := hg
+  unfold lexBeginTag
+  apply Sat.bind
+  apply peek_sat (by lx)
+  intro r l1 hl1 hs1 hp1 hf1
+  dsimp only
+  split
+  · fin
+  · fin
 
 end SoyVerif.Model.Lex
